@@ -123,8 +123,9 @@ Proof. exact (pagerank_full prims n p Hp). Qed.
 (* eigenvector_centrality_und: on connected (irreducible) undirected non-negative networks ANY routine returning a
    non-negative non-zero eigenvector of fixed norm - for whichever eigenvalue - is equivariant, and so is the eigenvalue
    (uniqueness half of Perron-Frobenius, proved over Q).  (The earlier text asked only `is_eigenvector`, which the zero
-   vector and every multiple satisfy: it was false.)  ASSUMED, as a hypothesis on the routine: that abs(V[:, argmax])
-   is such a vector (C18_eigenvector_abs_ok_partial derives it from two Rayleigh-quotient hypotheses on LAPACK's output). *)
+   vector and every multiple satisfy: it was false.)  The hypothesis on the routine - abs(V[:, argmax])
+   is such a vector - is DISCHARGED from the specification of the LAPACK call alone (eigenpair for the top of the Rayleigh
+   quotient) in C04_eigenvector_abs_full below, through C18_eigvec_abs_ok. *)
 Theorem C04_eigenvector_full : forall (solver : mat Q -> vec Q) (lam : mat Q -> Q) (norm2 : Q),
   (forall A, symmetric_mat n A -> nonneg_mat n A -> irreducible n A ->
      is_eigenvector prims n A (solver A) (lam A) /\ nonneg_vec n (solver A) /\
@@ -137,7 +138,10 @@ Theorem C04_residual_terms_denote : forall A r d i,
   ((i < n)%nat -> pagerank_residual prims n A r d i == mvecQ n (pr_B n A d) r i - pr_b d (uniform n) i) /\
   eigen_residual prims n A r d i == mvecQ n A r i - d * r i.
 Proof. intros A r d i. split; [exact (pagerank_residual_denote prims n A r d i)|exact (eigen_residual_denote prims n A r d i)]. Qed.
-Theorem C04_subgraph_truncation_partial : forall K A ci ks i,
+(* subgraph centrality, the rational truncations of the series sum_k (A^k)_ii / k! (the term the correspondence run
+   evaluates at K = 30): every truncation order is equivariant.  A lemma now - the FULL statement, about the matrix
+   exponential itself, is C04_subgraph_expm_equivariant at the end of this file. *)
+Theorem C04_subgraph_truncation : forall K A ci ks i,
   eval_v prims n (t_subgraph_trunc K) (pm p A) (pv p ci) ks i == eval_v prims n (t_subgraph_trunc K) A ci ks (p i).
 Proof. exact (subgraph_truncation_partial prims prims_proper n p Hp). Qed.
 End C04.
@@ -479,6 +483,124 @@ Example C04_kinds_nonvacuous :
   map kind_by_id [0; 6; 14; 23; 30; 52]%nat = [1; 0; 2; 2; 0; 2]%nat.
 Proof. split; vm_compute; reflexivity. Qed.
 
+(* ================================================================================================================ *)
+(* eigenvector_centrality_und, from the SPECIFICATION OF THE LAPACK CALL ALONE.  `vals, vecs = eigh(CIJ)` followed by
+   `argmax(vals)` is asked for an eigenpair (lam, u) of the symmetric matrix with lam the largest eigenvalue, i.e. the top
+   of the Rayleigh quotient: A u = lam u, forall x, x^T A x <= lam x^T x, u <> 0 (LAPACK: unit norm).  Nothing else is
+   assumed (C18_eigvec_abs_ok proves that |u| is then a non-negative eigenvector for lam of the same norm; the Perron
+   uniqueness of Proofs/EquivModelsLinear.v does the rest).  On a connected undirected non-negative network:
+   (1) the returned vector |u| is strictly positive, an eigenvector for lam, and EVERY non-negative non-zero eigenvector w
+       of A (whatever its eigenvalue mu) has mu = lam, is a positive multiple of |u|, and equals |u| when it has the norm
+       of u: the routine returns THE positive eigenvector of that norm, whichever top eigenvector LAPACK picked;
+   (2) for two unrelated LAPACK outputs - one for A, one for the renumbered matrix - of equal norm, the eigenvalues agree
+       and the returned vectors agree up to the renumbering.  This is C04_eigenvector_full with its hypothesis on the
+       `solver` discharged. *)
+From BCT Require Proofs.LinearSpectralFull Proofs.EquivModelsSpectral.
+Theorem C04_eigenvector_abs_full : forall n (A : mat Q), (0 < n)%nat ->
+  (forall i j, (i < n)%nat -> (j < n)%nat -> A i j == A j i) ->
+  (forall i j, (i < n)%nat -> (j < n)%nat -> 0 <= A i j) -> irreducible n A ->
+  forall (lam : Q) (u : vec Q),
+  (forall i, (i < n)%nat -> mvecQ n A u i == lam * u i) ->
+  (forall x : vec Q, qform n A x <= lam * normsq n x) ->
+  (exists i, (i < n)%nat /\ ~ u i == 0) ->
+  ((forall i, (i < n)%nat -> 0 < vabs u i) /\
+   (forall i, (i < n)%nat -> mvecQ n A (vabs u) i == lam * vabs u i) /\
+   normsq n (vabs u) == normsq n u /\
+   (forall (w : vec Q) (mu : Q),
+      (forall i, (i < n)%nat -> 0 <= w i) -> (forall i, (i < n)%nat -> mvecQ n A w i == mu * w i) ->
+      (exists i, (i < n)%nat /\ ~ w i == 0) ->
+      mu == lam /\
+      (exists t, 0 < t /\ forall i, (i < n)%nat -> w i == t * vabs u i) /\
+      (normsq n w == normsq n u -> forall i, (i < n)%nat -> w i == vabs u i))) /\
+  (forall p, perm_on n p -> forall (lam' : Q) (u' : vec Q),
+     (forall i, (i < n)%nat -> mvecQ n (pm p A) u' i == lam' * u' i) ->
+     (forall x : vec Q, qform n (pm p A) x <= lam' * normsq n x) ->
+     (exists i, (i < n)%nat /\ ~ u' i == 0) ->
+     normsq n u' == normsq n u ->
+     lam' == lam /\ forall i, (i < n)%nat -> vabs u' i == vabs u (p i)).
+Proof.
+  intros n A Hn As Ann Ac lam u Hu Hray Hnz. split.
+  - exact (EquivModelsSpectral.eigvec_abs_perron n A Hn As Ann Ac lam u (conj Hu (conj Hray Hnz))).
+  - intros p Hp lam' u' Hu' Hray' Hnz' Hnorm.
+    exact (EquivModelsSpectral.eigenvector_abs_equivariant n p Hp Hn A lam lam' u u' As Ann Ac
+             (conj Hu (conj Hray Hnz)) (conj Hu' (conj Hray' Hnz')) Hnorm).
+Qed.
+(* the hypotheses are satisfiable: K_2 is connected and (1, (-1,-1)) is a top eigenpair *)
+Example C04_eigenvector_abs_full_nonvacuous :
+  irreducible 2 LinearSpectralFull.K2Q /\ EquivModelsSpectral.top_eigenpair 2 LinearSpectralFull.K2Q 1 (fun _ => -(1)).
+Proof. exact EquivModelsSpectral.top_eigenpair_nonvacuous. Qed.
+
+(* ================================================================================================================ *)
+(* subgraph_centrality, FULL (replaces C04_subgraph_truncation_partial): over Coq's real numbers.
+     centrality.py : vals, vecs = eigh(CIJ); return np.dot(vecs * vecs, np.exp(vals))         = diag(expm(CIJ))
+   expmR n A (C18, Proofs/LinearReal.v) is the matrix exponential defined from the matrix ALONE: entry (i,j) is the sum of the
+   series sum_m (A^m)_ij / m! (stdlib infinite_sum; C18_expm_defined: it converges for every real matrix), and
+   C18_subgraph_expm: its diagonal is the expression the code returns for ANY eigh output.  For EVERY real matrix A (symmetric
+   or not) and EVERY renumbering p of the n nodes:
+   (1) expm(A[ix_(p,p)]) = expm(A)[ix_(p,p)] entrywise on the grid (matrix powers commute with the renumbering: induction on
+       the power with the inner sum re-indexed by p; the partial sums of the two series coincide; uniqueness of the limit);
+   (2) hence the diagonal - subgraph centrality - is permuted with the nodes;
+   (3) at the level of the code: for ANY eigh output (V, lam) for A and ANY eigh output (V', lam') for the renumbered matrix
+       (two unrelated LAPACK runs: other basis of a degenerate eigenspace, other order, other signs) the returned vectors agree
+       up to the renumbering;
+   (4) p = identity: the value does not depend on the basis / order eigh picks - the property's anchor 'must not depend on
+       an arbitrary basis of a degenerate eigenspace', formerly tested only. *)
+From Coq Require Import Reals.
+From BCT Require Import Proofs.LinearReal.
+From BCT Require Proofs.EquivModelsExpm.
+Theorem C04_subgraph_expm_equivariant : forall n p, perm_on n p -> forall A : nat -> nat -> R,
+  (forall i j, (i < n)%nat -> (j < n)%nat -> expmR n (pm p A) i j = expmR n A (p i) (p j)) /\
+  (forall i, (i < n)%nat -> expmR n (pm p A) i i = pv p (fun k => expmR n A k k) i) /\
+  (forall (V V' : nat -> nat -> R) (lam lam' : nat -> R),
+     (forall i k, (i < n)%nat -> (k < n)%nat -> sumR (fun l => A i l * V l k)%R n = (lam k * V i k)%R) ->
+     (forall i j, (i < n)%nat -> (j < n)%nat -> sumR (fun k => V i k * V j k)%R n = deltaR i j) ->
+     (forall i k, (i < n)%nat -> (k < n)%nat -> sumR (fun l => pm p A i l * V' l k)%R n = (lam' k * V' i k)%R) ->
+     (forall i j, (i < n)%nat -> (j < n)%nat -> sumR (fun k => V' i k * V' j k)%R n = deltaR i j) ->
+     forall i, (i < n)%nat ->
+     sumR (fun k => V' i k * V' i k * exp (lam' k))%R n = sumR (fun k => V (p i) k * V (p i) k * exp (lam k))%R n) /\
+  (forall (V V' : nat -> nat -> R) (lam lam' : nat -> R),
+     (forall i k, (i < n)%nat -> (k < n)%nat -> sumR (fun l => A i l * V l k)%R n = (lam k * V i k)%R) ->
+     (forall i j, (i < n)%nat -> (j < n)%nat -> sumR (fun k => V i k * V j k)%R n = deltaR i j) ->
+     (forall i k, (i < n)%nat -> (k < n)%nat -> sumR (fun l => A i l * V' l k)%R n = (lam' k * V' i k)%R) ->
+     (forall i j, (i < n)%nat -> (j < n)%nat -> sumR (fun k => V' i k * V' j k)%R n = deltaR i j) ->
+     forall i, (i < n)%nat ->
+     sumR (fun k => V' i k * V' i k * exp (lam' k))%R n = sumR (fun k => V i k * V i k * exp (lam k))%R n).
+Proof.
+  intros n p Hp A.
+  split; [exact (proj1 (EquivModelsExpm.subgraph_expm_equivariant n p Hp A))|].
+  split; [exact (proj2 (EquivModelsExpm.subgraph_expm_equivariant n p Hp A))|].
+  split.
+  - intros V V' lam lam' H1 H2 H1' H2'.
+    exact (EquivModelsExpm.subgraph_code_equivariant n p Hp A V V' lam lam' (conj H1 H2) (conj H1' H2')).
+  - intros V V' lam lam' H1 H2 H1' H2'.
+    exact (EquivModelsExpm.subgraph_code_basis_independent n A V V' lam lam' (conj H1 H2) (conj H1' H2')).
+Qed.
+(* K_2 with its irrational eigenbasis, the two nodes swapped: hypotheses hold, the centrality of both nodes of the renumbered
+   network is (e + 1/e)/2 *)
+Example C04_subgraph_expm_equivariant_nonvacuous :
+  perm_on 2 EquivModelsExpm.swap2 /\ EquivModelsExpm.eigh_spec 2 K2 K2V K2lam /\
+  (forall i, (i < 2)%nat -> expmR 2 (pm EquivModelsExpm.swap2 K2) i i = ((exp 1 + exp (-1)) / 2)%R).
+Proof. exact EquivModelsExpm.subgraph_expm_equivariant_nonvacuous. Qed.
+
+(* ... and the rational TERM t_subgraph_trunc K (Model/SymTerm.v: K nested lets in Horner form), whose every truncation
+   order is equivariant by C04_subgraph_truncation and which the correspondence run evaluates at K = 30 against the
+   implementation, IS the K-th partial sum of the series that defines expmR: its values converge to the diagonal of the matrix
+   exponential of the (real image of the) matrix.  The tested term and C04_subgraph_expm_equivariant speak about the same object. *)
+From BCT Require Proofs.EquivModelsExpmTerm.
+Theorem C04_subgraph_term_is_series : forall prims n (A : mat Q) (ci : vec Q) (ks : list Q) i, (i < n)%nat ->
+  (forall K, Q2R (eval_v prims n (t_subgraph_trunc K) A ci ks i)
+             = sum_f_R0 (fun m => / INR (fact m) * mpowR n (fun a b => Q2R (A a b)) m i i)%R K) /\
+  Un_cv (fun K => Q2R (eval_v prims n (t_subgraph_trunc K) A ci ks i)) (expmR n (fun a b => Q2R (A a b)) i i).
+Proof.
+  intros prims n A ci ks i Hi. split.
+  - intros K. exact (EquivModelsExpmTerm.subgraph_term_partial_sum prims n A ci ks K i Hi).
+  - exact (EquivModelsExpmTerm.subgraph_term_converges prims n A ci ks i Hi).
+Qed.
+(* K_2, K = 2: 1 + 0 + 1/2 *)
+Example C04_subgraph_term_nonvacuous :
+  eval_v (fun _ x => x) 2 (t_subgraph_trunc 2) (of_rows 0%Q [[0; 1]; [1; 0]]%Q) (fun _ => 0%Q) [] 0%nat = (3 # 2)%Q.
+Proof. exact EquivModelsExpmTerm.subgraph_term_nonvacuous. Qed.
+
 Print Assumptions C04_sumQ_reindex.
 Print Assumptions C04_symterm_equivariant.
 Print Assumptions C04_prog_equivariant.
@@ -493,7 +615,7 @@ Print Assumptions C04_eigenvector_equation.
 Print Assumptions C04_pagerank_full.
 Print Assumptions C04_eigenvector_full.
 Print Assumptions C04_residual_terms_denote.
-Print Assumptions C04_subgraph_truncation_partial.
+Print Assumptions C04_subgraph_truncation.
 Print Assumptions C04_inverse_renumbering.
 Print Assumptions C04_floyd_model_equivariant.
 Print Assumptions C04_distance_wei_floyd_model_equivariant.
@@ -521,3 +643,6 @@ Print Assumptions C04_denote_transitivity_bu.
 Print Assumptions C04_gen_equivariant.
 Print Assumptions C04_gen_run_equivariant.
 Print Assumptions C04_gen_same_as_hand_sound.
+Print Assumptions C04_eigenvector_abs_full.
+Print Assumptions C04_subgraph_expm_equivariant.
+Print Assumptions C04_subgraph_term_is_series.
